@@ -9,6 +9,7 @@ import (
 	"encoding/xml"
 	"errors"
 	"fmt"
+	"io"
 	"io/ioutil"
 	"strconv"
 	"strings"
@@ -223,13 +224,18 @@ func (c *Conf) InitFromBytes(content []byte) error {
 	nodeStack = append(nodeStack, c.root)
 	for {
 		currNode := nodeStack[len(nodeStack)-1]
-		token, _ := xmlDecoder.Token()
+		token, err := xmlDecoder.Token()
+		if err != nil && err != io.EOF {
+			return fmt.Errorf("xml parse error: %v", err)
+		}
 		if token == nil {
 			break
 		}
 		switch t := token.(type) {
 		case xml.CharData:
 			lineDecoder := bufio.NewScanner(bytes.NewReader(t))
+			// a line may be as long as the whole text (the default limit is 64 KiB)
+			lineDecoder.Buffer(nil, len(t)+1)
 			lineDecoder.Split(bufio.ScanLines)
 			for lineDecoder.Scan() {
 				line := strings.Trim(lineDecoder.Text(), whiteSpaceChars)
@@ -249,6 +255,9 @@ func (c *Conf) InitFromBytes(content []byte) error {
 				leaf := newElem(Leaf, k)
 				leaf.setValue(v)
 				currNode.addChild(k, leaf)
+			}
+			if err := lineDecoder.Err(); err != nil {
+				return fmt.Errorf("read line error: %v", err)
 			}
 		case xml.StartElement:
 			nodeName := t.Name.Local
